@@ -182,3 +182,23 @@ func (w *World) DIndex(dseq uint64) (int, error) {
 	}
 	return i, nil
 }
+
+// Reimport exports the genesis state of every module from ctx, initialises a FRESH application instance from it and
+// returns a world over that instance (same party names) positioned at the same height: the export/import round trip.
+func (w *World) Reimport(ctx sdk.Context) (w2 *World, ctx2 sdk.Context, err error) {
+	defer func() {
+		if r := recover(); r != nil {
+			err = fmt.Errorf("panic: %v", r)
+		}
+	}()
+	gs := w.App.VerifExportGenesis(ctx)
+	stateBytes, err := json.Marshal(gs)
+	if err != nil {
+		return nil, ctx, err
+	}
+	a := app.NewApp(log.NewNopLogger(), dbm.NewMemDB(), nil, true, 5, map[int64]bool{}, app.DefaultHome, simapp.EmptyAppOptions{})
+	a.InitChain(abci.RequestInitChain{Validators: []abci.ValidatorUpdate{}, AppStateBytes: stateBytes})
+	w2 = &World{Cfg: w.Cfg, App: a, addr: w.addr, name: w.name, dseqI: w.dseqI}
+	w2.Root = a.BaseApp.NewContext(false, tmproto.Header{Height: ctx.BlockHeight()})
+	return w2, w2.Root, nil
+}
